@@ -49,10 +49,13 @@ PROPS = {
     ),
     "C15": dict(
         level="exploration",
-        modules=["specs.mesh"],
+        modules=["specs.mesh", "specs.meshreg"],
         bounded=[("bounded.c15", "run")],
         assumes=["A9"],
-        trusted=["mesh executor / registry / adaptix conversion, basemodel._merge/merge (getattr/setattr reflection): bounded only",
+        trusted=["MeshRulesRegistry.lookup_direct is proved (every direct rule tried in both orientations, nested registries included) and "
+                 "both ends are proved to see the same pairs (lemma both_ends_see_the_same_pairs), relative to PairMatcher.match_pair "
+                 "and _normalize_host; lookup_indirect, the mesh executor, adaptix conversion, basemodel._merge/merge (getattr/setattr "
+                 "reflection): bounded only",
                  "Merger._merge hook and DictMerge's value merger are opaque (vmerge); copy.copy is a one-level copy (A5)"],
     ),
     "C20": dict(
